@@ -135,6 +135,9 @@ def report(pid, tier, seed, mod, clauses, jobs, results, herr, t0, write_evidenc
                                          'samples': [], 'shards': 0})
         d['evaluations'] += r['evaluations']
         d['shards'] += 1 if job[0] == 'run' else 0
+        d['shard_wall_max'] = max(d.get('shard_wall_max', 0.0), r.get('wall_s', 0.0))
+        if r.get('slowest', [0])[0] > d.get('slowest', [0])[0]:
+            d['slowest'] = r['slowest']
         try:
             d['hashes'].append(np.load(r['hashes']))
         except Exception:
@@ -167,6 +170,9 @@ def report(pid, tier, seed, mod, clauses, jobs, results, herr, t0, write_evidenc
             'excluded': dict(d['excluded']),
             'known_findings_hit': dict(d['known_findings_hit']),
             'shards': d['shards'],
+            'max_shard_wall_s': round(d.get('shard_wall_max', 0.0), 1),
+            'slowest_case_s': round(d.get('slowest', [0.0])[0], 2),
+            'slowest_case': d.get('slowest', [0.0, None])[1],
         }
         for s in d['samples']:
             if len(samples) < 8:
@@ -221,9 +227,11 @@ def report(pid, tier, seed, mod, clauses, jobs, results, herr, t0, write_evidenc
             json.dump(ev, f, indent=1, sort_keys=False)
 
     for name, c in cov_clauses.items():
-        log('  %-28s eval=%-8d nontrivial=%-8d excluded=%d known=%d' % (
+        log('  %-28s eval=%-8d nontrivial=%-8d excluded=%d known=%d shardwall=%.0fs slowest=%.1fs' % (
             name, c['evaluations'], c['distinct_nontrivial'], sum(c['excluded'].values()),
-            sum(c['known_findings_hit'].values())))
+            sum(c['known_findings_hit'].values()), c['max_shard_wall_s'], c['slowest_case_s']))
+        if os.environ.get('VERIF_VERBOSE') and c['slowest_case'] is not None:
+            log('      slowest: %s' % json.dumps(c['slowest_case'])[:400])
     log('%s tier=%s seed=%d evaluations=%d distinct_nontrivial=%d wall=%.1fs' % (
         pid, tier, seed, total_eval, distinct, wall))
     for line in out_lines:
